@@ -1217,49 +1217,90 @@ def dk1(F, R):
         R.require(fe and not oks and errs, fn, "alloc-fail->DiskFull", "a failed extension allocation can reach an Ok return (a silent short write: the caller is told the whole buffer was stored) or is not reported", fn.loc(b))
 
 
+def field_setters(F, field):
+    """Crate functions that are mere conduits for one field: on every path to their return they store one of their own
+    parameters into <receiver>...<field> (directly or through another such function).  -> {function path: parameter index}"""
+    out = {}
+    for _round in range(3):
+        for g in F.fns:
+            if g.npath in out or g.arg_count < 2:
+                continue
+            sites = []
+            for b, i, s_ in g.stmts():
+                if s_["k"] == "Assign" and [e[2] for e in g.canon_place(s_["p"])["proj"] if e[0] == "field"][-1:] == [field]:
+                    base = strip_refs(g.term_of_place({"l": g.canon_place(s_["p"])["l"], "proj": []}))
+                    v = strip_refs(g.term_of_rvalue(s_["rv"], b))
+                    if base[:2] == ("arg", 1) and v[0] == "arg" and v[1] >= 2:
+                        sites.append((b, v[1]))
+                    else:
+                        sites.append((b, None))
+            for b, t in g.calls():
+                c = strip_generics(callee_of(t) or "")
+                if c in out and len(t["args"]) > out[c] - 1:
+                    v = strip_refs(g.term_of_operand(t["args"][out[c] - 1], b))
+                    recv = strip_refs(g.term_of_operand(t["args"][0], b))
+                    if v[0] == "arg" and v[1] >= 2 and recv[:2] == ("arg", 1):
+                        sites.append((b, v[1]))
+            ks = {k for _b, k in sites}
+            if not sites or None in ks or len(ks) != 1:
+                continue
+            free = g.reach([0], cut_blocks=[b for b, _k in sites])
+            if any(g.blocks[b]["term"]["k"] == "Return" for b in free):
+                continue
+            out[g.npath] = next(iter(ks))
+    return out
+
+
 @rule("TS1", ["C02"], floor=6,
       doc="creation time is written only at creation (DirEntry::new, make_dir literals, parse); mtime is taken from the TimeSource only in write() and the truncate arm of open_file_in_dir")
 def ts1(F, R):
     allowed_c = {"filesystem::directory::DirEntry::new", "fat::ondiskdirentry::OnDiskDirEntry::get_entry", FATVOL + "::make_dir"}
     allowed_m = allowed_c | {VM + "::write", VM + "::open_file_in_dir"}
+    setters = field_setters(F, "mtime")
     seen_c, seen_m = set(), set()
     for f in F.fns:
-        if f.kind == "Closure" and False:
-            continue
         for b, i, s in f.stmts():
             if s["k"] != "Assign":
                 continue
             names = [e[2] for e in f.canon_place(s["p"])["proj"] if e[0] == "field"]
             if names and names[-1] == "ctime":
                 seen_c.add(f.npath)
-            if names and names[-1] == "mtime":
+            if names and names[-1] == "mtime" and f.npath not in setters:
                 seen_m.add(f.npath)
             if s["rv"]["k"] == "Aggregate" and s["rv"].get("adt", "") == "filesystem::directory::DirEntry":
                 seen_c.add(f.npath)
+                seen_m.add(f.npath)
+        # a conduit (fn set_modified(&mut self, now) { self.entry.mtime = now }) writes what its caller hands it: the caller is the writer
+        for b, t in f.calls():
+            if strip_generics(callee_of(t) or "") in setters and f.npath not in setters:
                 seen_m.add(f.npath)
     test_ok = lambda n: n.startswith(("fat::test", "volume_mgr::tests")) or n.endswith("as core::clone::Clone>::clone")
     bad_c = {n for n in seen_c if n not in allowed_c and not test_ok(n)}
     bad_m = {n for n in seen_m if n not in allowed_m and not test_ok(n)}
     R.require(not bad_c, None, "ctime-writers", "creation time written in %s" % sorted(bad_c), okdetail="ctime writers: %s" % sorted(seen_c))
-    R.require(not bad_m, None, "mtime-writers", "modification time written in %s" % sorted(bad_m), okdetail="mtime writers: %s" % sorted(seen_m))
+    R.require(not bad_m, None, "mtime-writers", "modification time written in %s" % sorted(bad_m), okdetail="mtime writers: %s (conduits: %s)" % (sorted(seen_m), sorted(setters)))
+
+    def stamps(f):
+        """(block, value term) of every place where f sets a modification time: a store, or a call of a conduit"""
+        out = []
+        for b, i, s in f.stmts():
+            if s["k"] == "Assign" and [e[2] for e in f.canon_place(s["p"])["proj"] if e[0] == "field"][-1:] == ["mtime"]:
+                out.append((b, f.term_of_rvalue(s["rv"], b)))
+        for b, t in f.calls():
+            c = strip_generics(callee_of(t) or "")
+            if c in setters:
+                out.append((b, f.term_of_operand(t["args"][setters[c] - 1], b)))
+        return out
     fn = F.fn(VM + "::write")
-    okm = False
-    for b, i, s in fn.stmts():
-        if s["k"] == "Assign":
-            names = [e[2] for e in fn.canon_place(s["p"])["proj"] if e[0] == "field"]
-            if names and names[-1] == "mtime":
-                v = fn.term_of_rvalue(s["rv"], b)
-                okm = has_sub(v, lambda q: q[0] == "call" and q[1] and q[1].endswith("TimeSource::get_timestamp"))
+    st = stamps(fn)
+    okm = bool(st) and all(has_sub(v, lambda q: q[0] == "call" and q[1] and q[1].endswith("TimeSource::get_timestamp")) for b, v in st)
     R.require(okm, fn, "mtime=clock", "write() must set mtime from time_source.get_timestamp()", fn.loc(0))
     # ... on every successful write, not only the first one through the handle: no Ok return without passing the stamp
-    def mtime_stores(f):
-        return [b for b, i, s in f.stmts() if s["k"] == "Assign" and [e[2] for e in f.canon_place(s["p"])["proj"] if e[0] == "field"][-1:] == ["mtime"]]
-    st = mtime_stores(fn)
-    free = fn.reach([0], cut_blocks=st)
-    R.require(bool(st) and not any(x[0] in free for x in ok_returns(fn)), fn, "mtime-every-write", "write() can return Ok without stamping the modification time (e.g. only on the first write through a handle): the flushed entry carries the time of an earlier write", fn.loc(st[0]) if st else fn.loc(0))
+    free = fn.reach([0], cut_blocks=[b for b, v in st])
+    R.require(bool(st) and not any(x[0] in free for x in ok_returns(fn)), fn, "mtime-every-write", "write() can return Ok without stamping the modification time (e.g. only on the first write through a handle): the flushed entry carries the time of an earlier write", fn.loc(st[0][0]) if st else fn.loc(0))
     # the truncating open stamps before it persists the entry (the handle is not dirty afterwards, so a later stamp is never written)
     fo = F.fn(VM + "::open_file_in_dir")
-    st = mtime_stores(fo)
+    st = [b for b, v in stamps(fo)]
     ws = [b for b, t in fo.calls() if call_matches(t, ("FatVolume::write_entry_to_disk",))]
     R.require(bool(st) and bool(ws), fo, "truncate-stamp-sites", "open_file_in_dir must stamp mtime and persist the entry in its truncating arm", fo.loc(0))
     for w in ws:
